@@ -75,6 +75,21 @@ static char * cstr_of(const char * tok)
 
 static void puthexstr(const char * s) { drv_puthex((const uint8_t *)s, strlen(s)); }
 
+/* Everything passed INTO a signing call is the caller's again when the call returns (aws_sign.h:
+ * the results are returned values; nothing is said to be borrowed), so before the results are looked
+ * at the argument strings are overwritten and freed and the body is overwritten in place: a result
+ * that points into an argument, or anything computed lazily from one, shows. */
+static void args_done(char ** a, int na, uint8_t * body, size_t bodylen, int inarena, uint8_t * bodycopy)
+{
+	int i;
+	for (i = 0; i < na; i++) { drv_scribble_str(a[i]); free(a[i]); }
+	/* the body is `const` for the library: it must still hold what was passed in */
+	if (body != NULL) drv_input_check(bodycopy, body, bodylen, "body-modified ");
+	if (body != NULL) { drv_scribble(body, bodylen); if (!inarena) free(body); }
+}
+/* result pointers start as junk, not as NULL */
+#define DRV_JUNKPTR ((char *)(uintptr_t)0x5a5a5a5a5a5aULL)
+
 int main(void)
 {
 	char * line; char * tok[12];
@@ -87,39 +102,39 @@ int main(void)
 			for (j = 2; j < n; j++) tok[j - 2] = tok[j];
 			n -= 2;
 		}
-		char * a[8]; int i; char * c = NULL, * d = NULL, * au = NULL;
-		uint8_t * body = NULL; size_t bodylen = 0; int rc; int inarena = 0;
+		char * a[8]; int i; char * c = DRV_JUNKPTR, * d = DRV_JUNKPTR, * au = DRV_JUNKPTR;
+		uint8_t * body = NULL; size_t bodylen = 0; int rc; int inarena = 0; uint8_t * bcp = NULL;
 		drv_tcalls = 0;
 		if (n == 9 && strcmp(tok[0], "s3h") == 0) {
 			for (i = 0; i < 6; i++) a[i] = cstr_of(tok[1 + i]);
 			if (strcmp(tok[7], "NULL") != 0) { body = drv_unhex(tok[7], &bodylen, 0); body = body_place(body, bodylen, &inarena); } else bodylen = DRV_NULL_BODYLEN;
 			drv_t0 = (time_t)strtoll(tok[8], NULL, 10);
+			bcp = body ? drv_input_copy(body, bodylen) : NULL;
 			drv_inlib = 1; rc = aws_sign_s3_headers(a[0], a[1], a[2], a[3], a[4], a[5], body, bodylen, &c, &d, &au); drv_inlib = 0;
+			args_done(a, 6, body, bodylen, inarena, bcp);
 			if (rc == 0) { printf("ok "); puthexstr(c); printf(" "); puthexstr(d); printf(" "); puthexstr(au); printf("\n"); free(c); free(d); free(au); }
 			else printf("fail\n");
-			for (i = 0; i < 6; i++) free(a[i]);
-			if (!inarena) free(body);
 		} else if (n == 9 && strcmp(tok[0], "s3q") == 0) {
 			char * q;
 			for (i = 0; i < 6; i++) a[i] = cstr_of(tok[1 + i]);
 			drv_t0 = (time_t)strtoll(tok[8], NULL, 10);
 			drv_inlib = 1; q = aws_sign_s3_querystr(a[0], a[1], a[2], a[3], a[4], a[5], atoi(tok[7])); drv_inlib = 0;
+			args_done(a, 6, NULL, 0, 0, NULL);
 			if (q) { printf("ok "); puthexstr(q); printf("\n"); free(q); } else printf("fail\n");
-			for (i = 0; i < 6; i++) free(a[i]);
 		} else if (n == 7 && (strcmp(tok[0], "svc") == 0 || strcmp(tok[0], "ddb") == 0)) {
 			for (i = 0; i < 4; i++) a[i] = cstr_of(tok[1 + i]);
 			if (strcmp(tok[5], "NULL") != 0) { body = drv_unhex(tok[5], &bodylen, 0); body = body_place(body, bodylen, &inarena); } else bodylen = DRV_NULL_BODYLEN;
 			drv_t0 = (time_t)strtoll(tok[6], NULL, 10);
+			bcp = body ? drv_input_copy(body, bodylen) : NULL;
 			drv_inlib = 1;
 			if (tok[0][0] == 's')
 				rc = aws_sign_svc_headers(a[0], a[1], a[2], a[3], body, bodylen, &c, &d, &au);
 			else
 				rc = aws_sign_dynamodb_headers(a[0], a[1], a[2], a[3], body, bodylen, &c, &d, &au);
-			drv_inlib = 0; drv_inlib = 0;
+			drv_inlib = 0;
+			args_done(a, 4, body, bodylen, inarena, bcp);
 			if (rc == 0) { printf("ok "); puthexstr(c); printf(" "); puthexstr(d); printf(" "); puthexstr(au); printf("\n"); free(c); free(d); free(au); }
 			else printf("fail\n");
-			for (i = 0; i < 4; i++) free(a[i]);
-			if (!inarena) free(body);
 		} else
 			printf("bad-case\n");
 	}
